@@ -12,6 +12,7 @@ pub mod gl;
 pub mod c11;
 pub mod t2;
 pub mod t2b;
+pub mod t2c;
 pub mod c09;
 pub mod c15;
 pub mod c06;
@@ -25,6 +26,7 @@ pub use gl::*;
 pub use c11::*;
 pub use t2::*;
 pub use t2b::*;
+pub use t2c::*;
 pub use c09::*;
 pub use c15::*;
 pub use c06::*;
